@@ -124,6 +124,31 @@ func (w *World) monitorConnect() {
 				break
 			}
 		}
+		// a valid accepting CONNACK that arrived intact must be accepted: the
+		// client may not close the connection as its next action
+		if accepted && readIdx >= 0 {
+			for _, e := range w.log[readIdx+1:] {
+				if e.C != c.id && e.K != "crash" {
+					continue
+				}
+				if e.K == "close" && strings.HasPrefix(e.T, "a:reader") {
+					// closed by the read routine right after the handshake: was there a cause?
+					cause := false
+					for _, f := range w.log[dialIdx:] {
+						if f.Step > e.Step {
+							break
+						}
+						if f.K == "call" && (f.S == "close" || f.S == "disc") || f.K == "store" && f.R != "" || (f.C == c.id && (f.K == "cut" || (f.K == "write" || f.K == "read") && (f.R != "" || f.S == "lost" || f.S == "noresponse" || strings.HasSuffix(f.S, "then stall")))) {
+							cause = true
+						}
+					}
+					if !cause {
+						w.Violate("C18", "accepted-connack-rejected", "c%d: the broker's accepting CONNACK %x (clean session requested: %t) arrived intact, yet the client closed the connection", c.id, reply, cf.CleanSession)
+					}
+				}
+				break
+			}
+		}
 		if !accepted && replyIdx >= 0 && w.quiet && !c.closed {
 			w.Violate("C18", "refused-connection-left-open", "c%d: reply %x does not accept the connection, yet the client never closed it", c.id, trunc(reply))
 		}
@@ -372,6 +397,9 @@ func init() {
 				Final: func(w *World) {
 					w.monitorWire()
 					w.monitorConnect()
+					if w.horizonHit {
+						w.Violate("C18", "no-stabilisation", "execution did not become quiet within %d steps", w.step)
+					}
 					w.monitorRequests()
 					w.monitorOrder()
 				},
@@ -388,6 +416,7 @@ func init() {
 			cfg.AtLeastOnceMax, cfg.ExactlyOnceMax = m1, m2
 			return &Scenario{
 				Config:    cfg,
+				AdoptProp: "C17",
 				Preset:    preset != 0,
 				PresetSeq: [2]uint{preset, preset},
 				Actors: []ActorSpec{
@@ -403,12 +432,13 @@ func init() {
 					w.monitorWindow()
 					w.monitorRestart()
 					w.monitorOrder()
+					w.monitorRequests()
 				},
 			}
 		}
 	}
 	register("window21", mkWindow(2, 1, 0))
-	register("window21wrap", mkWindow(2, 1, 0x3ffe))
+	register("window21wrap", mkWindow(2, 1, 0x3fff))
 	register("window10", mkWindow(1, 0, 0x7ffe))
 	register("window3neg", mkWindow(3, -1, 0x3fff))
 }
